@@ -296,15 +296,16 @@ def stratum(spec, ref):
         offs.append(spec["ox"] / spec["dx"])
     if spec["nr"] > 1:
         offs.append(spec["oy"] / spec["dy"])
+    if any(abs(o) % 1.0 == 0.5 for o in offs):
+        return "origin-half-step"
     if any(abs(o) > 0.5 for o in offs):
         return "origin-offset"
-    if any(abs(o) == 0.5 for o in offs):
-        return "origin-half-step"
     return "plain"
 
 
 def check_state(xm, ref, spec, strat, site_prefix, rep):
-    """the property clauses on one state; returns True if everything agrees"""
+    """the property clauses on one state; returns False only when the ids differ
+    (then the rest of the history cannot be compared)"""
     ids = ref.ids
     ok = True
 
@@ -319,10 +320,11 @@ def check_state(xm, ref, spec, strat, site_prefix, rep):
     if xm.size != ids.size:
         bad("size", "size differs from the number of ids")
     if ids.size == 0:
-        return ok
+        return True
     if not np.array_equal(xm.phase_id, ref.pid[ids]):
         bad("phase_id", "phase_id not aligned with ids")
-    if not np.array_equal(xm.rotations.data.reshape(ids.size, -1), ref.rot[ids].reshape(ids.size, -1)):
+    # (Rotation.__getitem__ re-normalises, so the last bit may differ)
+    if not np.allclose(xm.rotations.data.reshape(ids.size, -1), ref.rot[ids].reshape(ids.size, -1), rtol=0, atol=1e-12):
         bad("rotations", "rotations not aligned with ids")
     if ref.x is not None and spec["nc"] > 1 and not np.array_equal(xm.x, ref.x[ids]):
         bad("x", "x not aligned with ids")
@@ -355,7 +357,10 @@ def check_state(xm, ref, spec, strat, site_prefix, rep):
         if name not in spec["props"]:
             continue
         exp = np.full(exp_shape, fill, dtype=float if name == "p" else np.int64)
-        exp[rel] = arr[ids]
+        if rel:
+            exp[rel] = arr[ids]
+        else:
+            exp[...] = arr[ids][0]
         try:
             got = xm.get_map_data(name, fill_value=fill)
             if got.shape != exp.shape or not np.array_equal(got, exp, equal_nan=True):
@@ -366,7 +371,10 @@ def check_state(xm, ref, spec, strat, site_prefix, rep):
     # array item
     item = np.array([1000.5 + 2 * i for i in range(ids.size)])
     exp = np.full(exp_shape, np.nan)
-    exp[rel] = item
+    if rel:
+        exp[rel] = item
+    else:
+        exp[...] = item[0]
     s2 = "three-points" if (ids.size == 3 and ref.n > 3 and strat == "plain") else strat
     try:
         got = xm.get_map_data(item)
@@ -377,7 +385,7 @@ def check_state(xm, ref, spec, strat, site_prefix, rep):
     except Exception as e:  # noqa
         ok = False
         fail(f"get_map_data-array:{s2}", f"get_map_data(ndarray) raises {type(e).__name__}", rep)
-    return ok
+    return True
 
 
 def run_case(spec, ops, tag, record=True, full_obs=True):
